@@ -141,6 +141,7 @@ class Sym:
         self.max_paths = max_paths
         self.inline = inline or (lambda fn: False)
         self.inline_depth = inline_depth
+        self.expand_combinators = True
         self.uid = 0
         self.pure = pure or PURE_NAMES
 
@@ -460,6 +461,10 @@ class Sym:
                     st.events.append(Event("call", bb, fnpath, name=name, fn=fn, args=args, result=None, term=t, extra="stop"))
                     self._finish(st, "stop", None, out)
                     return
+                comb = self._combinator(name, short, args) if (fn and self.expand_combinators) else None
+                if comb is not None:
+                    self._expand_combinator(body, bb, t, st, out, depth, comb, name, fn, args, uid)
+                    return
                 callee_body = None
                 if fn and depth < self.inline_depth and self.inline(fn):
                     callee_body = self.facts.body(callee_name(fn)) or self.facts.body(fn["path"])
@@ -467,39 +472,9 @@ class Sym:
                                                     any(k[0] == callee_body.path for k in st.blocks[-200:] if False)):
                         callee_body = None      # no self-recursion
                 if callee_body is not None and not callee_body.j.get("coroutine_kind"):
-                    # virtual inlining: run the callee's paths in place
-                    sub_out = []
-                    st.events.append(Event("call", bb, fnpath, name=name, fn=fn, args=args, result=None, term=t, extra="inlined",
-                                           vers=tuple(st.ver.get(a, 0) for a in args), ncond=len(st.conds)))
-                    cst = st.clone()
-                    cst.env = {k: v for k, v in st.env.items() if isinstance(k, tuple)}     # memory cells are shared, locals are not
-                    cst.pts = {}
-                    for key in [k for k in cst.visits if k[0] == callee_body.path]:
-                        del cst.visits[key]
-                    for i in range(1, callee_body.j["arg_count"] + 1):
-                        cst.env["_%d" % i] = args[i - 1] if i - 1 < len(args) else ("unk", "arg")
-                    self._walk(callee_body, 0, cst, sub_out, depth + 1)
-                    call_idx = len(st.events) - 1
-                    for p in sub_out:
-                        if p.end != "return" or t["t"] is None:
-                            out.append(p)
-                            continue
-                        s2 = st.clone()
-                        s2.env = {k: v for k, v in st.env.items() if not isinstance(k, tuple)}
-                        s2.env.update({k: v for k, v in p.env.items() if isinstance(k, tuple)})  # the callee's writes to memory
-                        s2.ver = dict(p.state.ver)
-                        s2.visits = dict(p.state.visits)
-                        s2.conds = list(p.conds)
-                        s2.events = list(p.events)
-                        # the call event itself carries the value this path of the callee returned
-                        ce = s2.events[call_idx]
-                        s2.events[call_idx] = Event("call", ce.bb, ce.fnpath, name=ce.name, fn=ce.fn, args=ce.args, result=p.ret, term=ce.term,
-                                                    extra="inlined", vers=ce.vers, ncond=ce.ncond)
-                        s2.blocks = list(p.blocks)
-                        for a_ in t["args"]:
-                            self.havoc_arg(s2, a_, uid)
-                        self.assign(s2, t["dest"], p.ret)
-                        self._walk(body, t["t"], s2, out, depth)
+                    ev = Event("call", bb, fnpath, name=name, fn=fn, args=args, result=None, term=t, extra="inlined",
+                               vers=tuple(st.ver.get(a, 0) for a in args), ncond=len(st.conds))
+                    self._inline_call(body, t, st, out, depth, callee_body, args, ev, uid)
                     return
                 is_pure = short in self.pure and not any(
                     (a["k"] in ("copy", "move") and (a["place"].get("ty", "").startswith("&mut")))
@@ -537,6 +512,151 @@ class Sym:
             # unknown terminator
             self._finish(st, "other:" + k, None, out)
             return
+
+    def _inline_call(self, body, t, st, out, depth, callee_body, cargs, ev, uid, wrap=None):
+        """virtual inlining: run the callee's paths in place; `ev` (extra="inlined") is the event of the call and ends up carrying
+        the value each callee path returned; the caller continues with wrap(ret) in the destination"""
+        sub_out = []
+        st.events.append(ev)
+        cst = st.clone()
+        cst.env = {k: v for k, v in st.env.items() if isinstance(k, tuple)}     # memory cells are shared, locals are not
+        cst.pts = {}
+        for key in [k for k in cst.visits if k[0] == callee_body.path]:
+            del cst.visits[key]
+        for i in range(1, callee_body.j["arg_count"] + 1):
+            cst.env["_%d" % i] = cargs[i - 1] if i - 1 < len(cargs) else ("unk", "arg")
+        self._walk(callee_body, 0, cst, sub_out, depth + 1)
+        call_idx = len(st.events) - 1
+        for p in sub_out:
+            if p.end != "return" or t["t"] is None:
+                out.append(p)
+                continue
+            ret = wrap(p.ret) if wrap else p.ret
+            s2 = st.clone()
+            s2.env = {k: v for k, v in st.env.items() if not isinstance(k, tuple)}
+            s2.env.update({k: v for k, v in p.env.items() if isinstance(k, tuple)})  # the callee's writes to memory
+            s2.ver = dict(p.state.ver)
+            s2.visits = dict(p.state.visits)
+            s2.conds = list(p.conds)
+            s2.events = list(p.events)
+            # the call event itself carries the value this path of the callee returned
+            ce = s2.events[call_idx]
+            s2.events[call_idx] = Event("call", ce.bb, ce.fnpath, name=ce.name, fn=ce.fn, args=ce.args, result=ret, term=ce.term,
+                                        extra="inlined", vers=ce.vers, ncond=ce.ncond)
+            s2.blocks = list(p.blocks)
+            for a_ in t["args"]:
+                self.havoc_arg(s2, a_, uid)
+            self.assign(s2, t["dest"], ret)
+            self._walk(body, t["t"], s2, out, depth)
+
+    # Option / Result combinators that *decide* something by calling a closure: `opt.map_or(false, |x| ..)`, `is_some_and`, ...
+    # They are read as the match they abbreviate, so that their outcome is the same fact as a later `match` on the subject.
+    COMBINATORS = {
+        ("Option", "map_or"): (("None", 0, ("arg", 1)), ("Some", 1, ("apply", 2))),
+        ("Option", "map_or_else"): (("None", 0, ("apply0", 1)), ("Some", 1, ("apply", 2))),
+        ("Option", "is_some_and"): (("None", 0, ("int", 0)), ("Some", 1, ("apply", 1))),
+        ("Option", "is_none_or"): (("None", 0, ("int", 1)), ("Some", 1, ("apply", 1))),
+        ("Result", "map_or"): (("Ok", 0, ("apply", 2)), ("Err", 1, ("arg", 1))),
+        ("Result", "map_or_else"): (("Ok", 0, ("apply", 2)), ("Err", 1, ("apply", 1))),
+        ("Result", "is_ok_and"): (("Ok", 0, ("apply", 1)), ("Err", 1, ("int", 0))),
+        ("Result", "is_err_and"): (("Ok", 0, ("int", 0)), ("Err", 1, ("apply", 1))),
+        # value-producing ones whose outcome is a later decision (`opt.ok_or(e)?`, `opt.unwrap_or_else(f)`)
+        ("Option", "ok_or"): (("None", 0, ("wrap", "std::result::Result", "Err", ("arg", 1))), ("Some", 1, ("wrap", "std::result::Result", "Ok", ("payload",)))),
+        ("Option", "ok_or_else"): (("None", 0, ("wrap", "std::result::Result", "Err", ("apply0", 1))), ("Some", 1, ("wrap", "std::result::Result", "Ok", ("payload",)))),
+        ("Option", "unwrap_or_else"): (("None", 0, ("apply0", 1)), ("Some", 1, ("payload",))),
+    }
+    PURE_PREDICATES = ("is_ok", "is_err", "is_some", "is_none", "is_empty")
+
+    def _callable(self, c):
+        """how to apply a callable value: ("closure", body, env) / ("fn", body) / ("purefn", path) / None"""
+        if c[0] == "agg" and c[1] == "closure":
+            cb = self.facts.body(c[2])
+            if cb is None or cb.j.get("coroutine_kind"):
+                return None
+            ty = cb.j["locals"][1]["ty"] if len(cb.j.get("locals", [])) > 1 else ""
+            return ("closure", cb, ("ref", c) if ty.startswith("&") else c)
+        if c[0] == "fn":
+            # a function item: applying it is an ordinary (opaque) call of that function
+            return ("purefn", c[1]) if c[1].split("::")[-1] in self.PURE_PREDICATES else ("opaquefn", c[1])
+        return None
+
+    def _combinator(self, name, short, args):
+        fam = "Option" if "option::Option" in name else ("Result" if "result::Result" in name else None)
+        spec = self.COMBINATORS.get((fam, short))
+        if spec is None or not args:
+            return None
+        def resolve(act):
+            if act[0] in ("apply", "apply0"):
+                if act[1] >= len(args):
+                    return None
+                c = self._callable(args[act[1]])
+                return None if c is None else (act[0], c)
+            if act[0] == "arg":
+                return None if act[1] >= len(args) else ("value", args[act[1]])
+            if act[0] == "wrap":
+                inner = resolve(act[3])
+                return None if inner is None else ("wrap", act[1], act[2], inner)
+            if act[0] == "payload":
+                return act
+            return ("value", act)
+        arms = []
+        for (vname, dv, act) in spec:
+            r = resolve(act)
+            if r is None:
+                return None
+            arms.append((vname, dv, r))
+        return (args[0], arms)
+
+    def _expand_combinator(self, body, bb, t, st, out, depth, comb, name, fn, args, uid):
+        fnpath = body.path
+        subj, arms = comb
+        base = subj
+        while isinstance(base, tuple) and base and base[0] == "ref":
+            base = base[1]
+        known = base[3] if (base[0] == "agg" and base[1] == "adt") else None
+        vers = tuple(st.ver.get(a, 0) for a in args)
+        for (vname, dv, act) in arms:
+            if known is not None and known != vname:
+                continue
+            s2 = st.clone()
+            if known is None:
+                de = ("discr", subj, None)
+                if not consistent(s2.conds, de, ("eq", dv)):
+                    continue
+                s2.conds.append((de, ("eq", dv), bb, fnpath))
+                payload = ("field", ("downcast", subj, vname), "0", None)
+            else:
+                payload = base[4][0] if base[4] else ("unk", "payload")
+            ev = Event("call", bb, fnpath, name=name, fn=fn, args=args, result=None, term=t, extra="inlined", vers=vers, ncond=len(s2.conds))
+            wrap = None
+            if act[0] == "wrap":
+                wrap = (lambda adt, vn: (lambda r: ("agg", "adt", adt, vn, (r,))))(act[1], act[2])
+                act = act[3]
+            params = [] if act[0] == "apply0" and vname == "None" else [payload]
+            if act[0] in ("apply", "apply0") and act[1][0] == "closure":
+                c = act[1]
+                self._inline_call(body, t, s2, out, depth, c[1], [c[2]] + params, ev, uid, wrap=wrap)
+                continue
+            if act[0] == "value":
+                val = act[1]
+            elif act[0] == "payload":
+                val = payload
+            elif act[1][0] == "purefn":
+                val = ("pure", act[1][1], tuple(params), (0,) * len(params))
+            else:
+                self.uid += 1
+                val = ("call", act[1][1], tuple(params), self.uid)
+                s2.events.append(Event("call", bb, fnpath, name=act[1][1], fn=None, args=tuple(params), result=val, term=None,
+                                       vers=(0,) * len(params), ncond=len(s2.conds)))
+            if wrap:
+                val = wrap(val)
+            ev.result = val
+            s2.events.append(ev)
+            if t["t"] is None:
+                self._finish(s2, "diverge", None, out)
+                continue
+            self.assign(s2, t["dest"], val)
+            self._walk(body, t["t"], s2, out, depth)
 
     def _two_variants(self, ty):
         if not ty:
@@ -661,13 +781,42 @@ def fold_binop(op, a, b):
     return ("binop", base, a, b)
 
 
+_canon_memo = {}
+
+
+def canon(e):
+    """Value identity modulo borrowing: `&x`, `*x`, `opt.as_ref()`, `opt.as_mut()` read the same value as x, and the type text
+    attached to a field projection is not part of its identity."""
+    if not isinstance(e, tuple) or not e:
+        return e
+    r = _canon_memo.get(e)
+    if r is not None:
+        return r
+    k = e[0]
+    if k in ("ref", "deref"):
+        r = canon(e[1])
+    elif k in ("pure", "call") and len(e) > 2 and len(e[2]) == 1 and e[1].split("::")[-1] in ("as_ref", "as_mut") and \
+            ("option::Option" in e[1] or "result::Result" in e[1]):
+        r = canon(e[2][0])
+    elif k == "field":
+        r = ("field", canon(e[1]), str(e[2]))
+    elif k == "downcast":
+        r = ("downcast", canon(e[1]), e[2])
+    elif k in ("pure", "call") and len(e) > 2:
+        r = (k, e[1], tuple(canon(a) for a in e[2])) + tuple(e[3:])
+    else:
+        r = e
+    if len(_canon_memo) > 200000:
+        _canon_memo.clear()
+    _canon_memo[e] = r
+    return r
+
+
 def ckey(e):
-    """Decisions are compared on this key: a discriminant read is the same fact whatever the static type text says."""
+    """Decisions are compared on this key: a discriminant read is the same fact whatever the static type text says and
+    through whichever borrow it was read."""
     if isinstance(e, tuple) and e and e[0] == "discr":
-        x = e[1]
-        while isinstance(x, tuple) and x and x[0] == "ref":
-            x = x[1]
-        return ("discr", x)
+        return ("discr", canon(e[1]))
     return e
 
 
